@@ -27,7 +27,9 @@ var fixtureSpecs = [numFixtures]struct {
 	order [poolSize]int
 	names [poolSize]string
 }{
-	{[poolSize]string{"10", "20", "30", "40", "50"}, [poolSize]int{0, 1, 2, 3, 4}, baseNames},
+	// fixture 0: all indices share their first digit (code that compares plugins by a prefix
+	// of "<index>-<name>" shows here for every pair)
+	{[poolSize]string{"10", "11", "12", "13", "14"}, [poolSize]int{0, 1, 2, 3, 4}, baseNames},
 	{[poolSize]string{"10", "20", "30", "40", "50"}, [poolSize]int{4, 3, 2, 1, 0}, baseNames},
 	{[poolSize]string{"05", "06", "50", "98", "99"}, [poolSize]int{2, 0, 4, 1, 3}, baseNames},
 	// twins: pool plugins 1 and 2 (and 3 and 4) register under the same index AND name (two
